@@ -53,7 +53,9 @@ func c14Pair(kind string, base uint64) (c14Duty, c14Duty) {
 // attestation of another account of the instance (before or after it), as a client is free to do.
 var c14Modes = []string{"none", "d1", "d2", "d1-then-d2", "d2-then-d1", "concurrent", "d1-then-d2-batched-first", "d1-then-d2-batched-last", "d2-then-d1-batched-first",
 	// ... or with an older, refusable attestation slipped in between inside a batch (an attempt to rewind the record).
-	"d1-stale-batch-d2", "d2-stale-batch-d1"}
+	"d1-stale-batch-d2", "d2-stale-batch-d1",
+	// ... or with the second duty addressed by the account's public key followed by extra bytes.
+	"d1-then-d2-by-long-key", "d2-then-d1-by-long-key"}
 
 // C14 routes two conflicting duties across the instances of a distributed account in every way and
 // counts the valid partial signatures each duty collects.
@@ -184,6 +186,21 @@ func c14Sign(inst *rig.Instance, account string, d c14Duty) []byte {
 	return sig
 }
 
+// c14SignByKey addresses the account by (possibly over-long) public key bytes.
+func c14SignByKey(inst *rig.Instance, key []byte, d c14Duty) []byte {
+	var res core.Result
+	var sig []byte
+	if d.att != nil {
+		res, sig = inst.Stack.Signer.SignBeaconAttestation(context.Background(), rig.Client1(), "", key, d.att)
+	} else {
+		res, sig = inst.Stack.Signer.SignBeaconProposal(context.Background(), rig.Client1(), "", key, d.prop)
+	}
+	if res != core.ResultSucceeded {
+		return nil
+	}
+	return sig
+}
+
 // c14Stale builds an attestation older than the duty (it must be refused once the duty has been signed).
 func c14Stale(d c14Duty) c14Duty {
 	if d.att == nil {
@@ -263,6 +280,12 @@ func c14Route(c *rig.Cluster, ids []uint64, account string, modes []int, d1, d2 
 			case "d2-then-d1-batched-first":
 				put(sigs2, id, c14Sign(inst, account, d2))
 				put(sigs1, id, c14SignBatched(inst, account, d1, true))
+			case "d1-then-d2-by-long-key":
+				put(sigs1, id, c14Sign(inst, account, d1))
+				put(sigs2, id, c14SignByKey(inst, append(append([]byte{}, shares[id]...), 0, 7), d2))
+			case "d2-then-d1-by-long-key":
+				put(sigs2, id, c14SignByKey(inst, shares[id], d2))
+				put(sigs1, id, c14SignByKey(inst, append(append([]byte{}, shares[id]...), 1), d1))
 			case "d1-stale-batch-d2":
 				put(sigs1, id, c14Sign(inst, account, d1))
 				c14SignBatched(inst, account, c14Stale(d1), id%2 == 0)
